@@ -1,4 +1,5 @@
 import GenjaxModel.Proofs.Seed
+import GenjaxModel.Proofs.SeedVec
 /-!
 # C07 — every sample site of a seeded run gets its own randomness
 
@@ -30,5 +31,87 @@ theorem C07_scan_site_count (id n : Nat) :
 /-- non-vacuity: a nested program and its (pairwise distinct) keys -/
 example : (siteKeys (.cons (.site 1) (.cons (.scan (.cons (.site 2) (.cons (.cond (.cons (.site 3) .nil)) .nil)) 2)
             (.cons (.site 4) .nil)))).length = 6 := by decide
+
+
+/-! ## Vectorised sites (sites under `modular_vmap`)
+
+`Model/SeedVec.lean`: programs `VProg` whose sites carry their own `sample_shape` and the list of
+enclosing vmap levels (size, is a parameter batched at that level), `rebind` = one application of
+the sample batching rule, `VProg.calls` = the sampler calls Seed performs, `VProg.erase` = the
+program Seed sees (`Model/Seed.lean`, every vectorised site is one `site`). That distinct
+positions of ONE keyful sampler call are independent draws is the sampler contract (trusted,
+calibrated in the thorough tier by the correlation tests of the harness). -/
+
+/-- a vectorised site is handed exactly ONE key and causes exactly ONE sampler call, whatever the
+    number and sizes of the enclosing vmaps (lanes do not get keys of their own), and the running
+    key advances exactly as for an ordinary site -/
+theorem C07_vectorised_site_one_key (id : Nat) (levels : List Level) (own : List Nat) (k : KP)
+    (it : List Nat) :
+    ((VStmt.vsite id levels own).calls k it).1.length = 1 ∧
+    ((VStmt.vsite id levels own).calls k it).1.map Call.entry = ((Stmt.site id).keys k it).1 ∧
+    ((VStmt.vsite id levels own).calls k it).2 = ((Stmt.site id).keys k it).2 := by
+  rw [vsite_calls]
+  exact ⟨rfl, rfl, rfl⟩
+
+/-- the one call's `sample_shape` is (sizes of the unbatched levels, outermost first) ++ the site's
+    own sample_shape — for a nest of `in_axes=()` vmaps / `repeat`s: `lanes ++ own` — and the
+    returned array has shape sample_shape ++ (sizes of the batched levels), i.e. one entry per
+    (lane, own position); for one level this is the layout of `Vmap.ruleOut`, the declared axis is
+    the true lane axis, and moving it to the front leaves every lane an array of the own shape -/
+theorem C07_vectorised_site_shape (id : Nat) (levels : List Level) (own : List Nat) (k : KP)
+    (it : List Nat) :
+    ((VStmt.vsite id levels own).calls k it).1.map (fun c => (c.sampleShape, c.retShape))
+      = [(unbSizes levels ++ own, unbSizes levels ++ own ++ batSizes levels)] ∧
+    (∀ lanes : List Nat, unbSizes (lanes.map fun n => (n, false)) ++ own = lanes ++ own ∧
+      batSizes (lanes.map fun n => (n, false)) = []) ∧
+    (∀ (n : Nat) (b : Bool) (cfg : Vmap.Cfg),
+      (rebindAll [(n, b)] own).ret = (Vmap.ruleOut cfg ⟨own, b⟩ n).1 ∧
+      declaredAxis (n, b) { ss := own, pb := [] } = (Vmap.ruleOut ⟨true⟩ ⟨own, b⟩ n).2 ∧
+      declaredAxis (n, b) { ss := own, pb := [] } = Vmap.laneAxis ⟨own, b⟩ ∧
+      Vmap.moveFront (rebindAll [(n, b)] own).ret (declaredAxis (n, b) { ss := own, pb := [] })
+        = n :: own) := by
+  refine ⟨by rw [vsite_calls]; rfl, fun lanes => ?_, fun n b cfg => ?_⟩
+  · rw [unbSizes_unbatched, batSizes_unbatched]; exact ⟨rfl, rfl⟩
+  · obtain ⟨h1, h2, h3⟩ := rebind_one_ruleOut n b own cfg
+    exact ⟨h1, h2, h3, rebind_one_moveFront n b own⟩
+
+/-- composition with scans and conds: in any program with vectorised sites (inside scans, conds,
+    nested, any lane counts) the sampler calls are exactly the sites of the erased program with
+    the model's keys, hence all calls get pairwise distinct keys and no call's key is derived from
+    another call's key -/
+theorem C07_vectorised_keys_distinct (p : VProg) :
+    (siteCalls p).map Call.entry = siteKeys p.erase ∧
+    ((siteCalls p).map (·.key)).Nodup ∧
+    (∀ a ∈ siteCalls p, ∀ b ∈ siteCalls p, a.key ≠ b.key → KP.under a.key b.key = false) :=
+  ⟨siteCalls_entries p, siteCalls_keys_nodup p,
+   fun a ha b hb hne => siteCalls_no_ancestor p a b ha hb hne⟩
+
+/-- lanes receive DISTINCT randomness: a valid lane reads, for every own position, an entry of the
+    array returned by the one call, and two different (lane, own position) pairs read different
+    entries (lane coordinates: one index per level, outermost first) -/
+theorem C07_vectorised_lanes_distinct (levels : List Level) (own : List Nat) :
+    (∀ ls o, ValidLane levels ls → o ∈ indices own →
+      lanePos levels ls o ∈ indices (rebindAll levels own).ret) ∧
+    (∀ ls ls' o o', ls.length = levels.length → ls'.length = levels.length → o.length = o'.length →
+      lanePos levels ls o = lanePos levels ls' o' → ls = ls' ∧ o = o') :=
+  ⟨fun ls o hl ho => lanePos_mem levels own ls o hl ho,
+   fun ls ls' o o' h h' ho e => lanePos_inj levels ls ls' o o' h h' ho e⟩
+
+/-- every scalar draw of a run has its own coordinate (key of the call, position in the returned
+    array): no two scalar draws — across sites, scan iterations, lanes, own positions — coincide -/
+theorem C07_vectorised_draws_distinct (p : VProg) : (allDraws p).Nodup := allDraws_nodup p
+
+/-- non-vacuity: a scan (2 iterations) around a site under vmap(3, unbatched) ∘ vmap(2, batched)
+    with own sample_shape (4,): two calls with different keys, sample_shape (3,4), returned (3,4,2) -/
+example :
+    (siteCalls (.cons (.scan (.cons (.vsite 1 [(3, false), (2, true)] [4]) .nil) 2) .nil)).map
+        (fun c => (c.iters, c.key, c.sampleShape, c.retShape))
+      = [([0], .R (.fold (.R .root) 0), [3, 4], [3, 4, 2]),
+         ([1], .R (.fold (.R .root) 1), [3, 4], [3, 4, 2])] := by decide
+
+example : ValidLane [(3, false), (2, true)] [2, 1] ∧ lanePos [(3, false), (2, true)] [2, 1] [3] = [2, 3, 1] ∧
+    (allDraws (.cons (.vsite 1 [(3, false), (2, true)] [4]) .nil)).length = 24 := by
+  refine ⟨?_, by decide, by decide⟩
+  exact List.Forall₂.cons (by decide) (List.Forall₂.cons (by decide) List.Forall₂.nil)
 
 end Genjax.Seed
